@@ -417,6 +417,36 @@ static TlsOut run_tls(unsigned cfg, bool client, const Bytes &in, const std::vec
 	o.master.assign(spp.master_secret, spp.master_secret + 48);
 	return o;
 }
+// One extra cleartext record spliced in at one of the first record
+// boundaries of the peer stream (all before the peer's ChangeCipherSpec for
+// boundary 0..2): mostly alert records whose payload holds a close_notify or
+// another alert followed by further bytes, the input for which "what was
+// available when the alert was looked at" could matter.
+static Bytes splice_record(Tape &t, const Bytes &in, std::string &md)
+{
+	std::vector<size_t> bounds;
+	size_t off = 0;
+	while (off + 5 <= in.size() && bounds.size() < 4) { bounds.push_back(off); off += 5 + ((size_t)in[off + 3] << 8 | in[off + 4]); }
+	if (bounds.empty()) return in;
+	size_t pos = bounds[t.u8() % bounds.size()];
+	unsigned type = t.pick<unsigned>({ 21, 21, 21, 21, 22, 20, 23 });
+	static const uint8_t HEADS[][2] = { { 1, 0 }, { 1, 0 }, { 1, 0 }, { 2, 40 }, { 1, 100 }, { 1, 90 }, { 2, 0 }, { 0, 0 } };
+	unsigned h = t.u8() % 8;
+	size_t n = t.u8() % 7;
+	Bytes pl;
+	if (n >= 1) pl.push_back(HEADS[h][0]);
+	if (n >= 2) pl.push_back(HEADS[h][1]);
+	for (size_t i = 2; i < n; i++) pl.push_back(t.pick<uint8_t>({ 1, 0, 2, 40, 1, 0 }));
+	if (t.u8() % 8 == 7) pl.resize(pl.size() + 900 + t.u8() * 4, 1);   // a record larger than a small input buffer
+	Bytes rec = { (uint8_t)type, in[1], in[2], (uint8_t)(pl.size() >> 8), (uint8_t)pl.size() };
+	rec.insert(rec.end(), pl.begin(), pl.end());
+	Bytes out(in.begin(), in.begin() + pos);
+	out.insert(out.end(), rec.begin(), rec.end());
+	out.insert(out.end(), in.begin() + pos, in.end());
+	md = fmt(" +type-%u record [%s%s] at offset %zu", type, hex(pl.data(), std::min<size_t>(pl.size(), 8)).c_str(), pl.size() > 8 ? ".." : "", pos);
+	return out;
+}
+
 static void k_tls(Tape &t, bool client)
 {
 	unsigned cfg = t.u8() & 0x7F;
@@ -424,6 +454,7 @@ static void k_tls(Tape &t, bool client)
 	VF_CHECK(r.ok, "harness: reference TLS session %u failed", cfg);
 	std::string md, pd;
 	Bytes in = mutate(t, client ? r.to_client : r.to_server, md);
+	if (md.empty() && t.u8() % 2) in = splice_record(t, in, md);
 	std::vector<size_t> p = draw_partition(t, in.size());
 	pd = part_desc(p);
 	std::string desc = fmt("TLS %s, session config %u%s (%zu bytes of peer stream)", client ? "client" : "server", cfg, md.c_str(), in.size());
